@@ -74,6 +74,67 @@ def union_cases(seed, n):
                 data = items if s is u else [{"e": x, "es": [x, items[(k + 1) % 4]]} for k, x in enumerate(items)]
                 out.append((s, data, {"dtn": False, "strict": False}))
                 continue
+            if i % 15 == 3:
+                # the ends of the int and long ranges under unions whose branches differ only in range
+                ints = [-2 ** 31, 2 ** 31 - 1, -2 ** 31 - 1, 2 ** 31, -2 ** 63, 2 ** 63 - 1, 0, -1, 1]
+                u = r.choice([["int", "long"], ["null", "int"], ["long", "double"], ["int", "double", "long"], ["null", "long", "string"],
+                              ["long", "int"], ["int", "string"], ["null", "int", "long", "double"]])
+                shape = r.random()
+                if shape < 0.35:
+                    s, mk = u, (lambda x: x)
+                elif shape < 0.6:
+                    s = {"type": "record", "name": "Wi", "fields": [{"name": "u", "type": u}, {"name": "us", "type": {"type": "array", "items": u}}]}
+                    mk = lambda x: {"u": x, "us": [x, 0, x]}
+                elif shape < 0.8:
+                    s, mk = {"type": "map", "values": u}, (lambda x: {"k": x})
+                else:
+                    s = [{"type": "record", "name": "Small", "fields": [{"name": "v", "type": "int"}]},
+                         {"type": "record", "name": "Big", "fields": [{"name": "v", "type": "long"}]},
+                         {"type": "record", "name": "Huge", "fields": [{"name": "v", "type": "double"}]}]
+                    mk = lambda x: {"v": x}
+                out.append((s, [mk(x) for x in r.sample(ints, 5)], {"dtn": False, "strict": False}))
+                continue
+            if i % 15 == 5:
+                # equal values of different Python types side by side in one container of unions
+                u = r.choice([["boolean", "int"], ["int", "boolean"], ["long", "double"], ["double", "long"], ["boolean", "double"],
+                              ["null", "float", "int"], ["boolean", "long", "double"]])
+                pool = [True, False, 1, 0, 2, 1.0, 0.0, 2.0]
+                pool = [x for x in pool if (isinstance(x, bool) and "boolean" in u) or (type(x) is int and ("int" in u or "long" in u))
+                        or (isinstance(x, float) and ("float" in u or "double" in u))]
+                r.shuffle(pool)
+                s = r.choice([{"type": "array", "items": u}, {"type": "map", "values": u}])
+                v = list(pool) if s["type"] == "array" else {"k%d" % j: x for j, x in enumerate(pool)}
+                out.append((s, [v], {"dtn": False, "strict": False}))
+                continue
+            if i % 15 == 9:
+                # a '-type' hint below an un-hinted union of records: it names a branch only some of the candidates have
+                q = r.choice(["", "demo."])
+                circle = {"type": "record", "name": q + "Circle", "fields": [{"name": "r", "type": "double"}]}
+                square = {"type": "record", "name": q + "Square", "fields": [{"name": "r", "type": "double"}]}
+                inner_pos = r.choice(["field", "array", "map"])
+
+                def place(u):
+                    if inner_pos == "field":
+                        return u
+                    if inner_pos == "array":
+                        return {"type": "array", "items": u}
+                    return {"type": "map", "values": u}
+                legacy = {"type": "record", "name": q + "Legacy", "fields": [{"name": "shape", "type": place(["null", circle])}]}
+                modern = {"type": "record", "name": q + "Modern", "fields": [{"name": "shape", "type": place(["null", q + "Circle", square])}]}
+                s = [legacy, modern] if r.random() < 0.8 else ["null", legacy, modern]
+
+                def inner(h):
+                    d = {"r": 1.5}
+                    if h:
+                        d["-type"] = h
+                    if inner_pos == "field":
+                        return d
+                    if inner_pos == "array":
+                        return [d, None]
+                    return {"k": d}
+                hints = [q + "Square", q + "Circle", None, q + "Nope"]
+                out.append((s, [{"shape": inner(h)} for h in hints], {"dtn": False, "strict": False}))
+                continue
             if i % 15 == 11:
                 # the float -> double deferral under every spelling of the two branches (bare name, {"type": ...},
                 # {"type": ..., other attributes}), any position, any nesting
